@@ -133,6 +133,17 @@ pub fn check(cx: &Cx, rep: &mut Report) {
                     }
                 }
             }
+            // "fails forever once no strong handle is left": from the *first* moment without one (a successful upgrade
+            // after that would itself bring the count back up and hide behind the later, final zero).  Only where
+            // nothing inside the library holds a transient strong handle (a timer's or the broker's send in flight).
+            if let (Some(g1), false, false, false) = (af.first_gone_at, af.has_timers, broker_used, af.parked) {
+                if o.b > g1 && !cx.mt {
+                    rep.premise("C05.R3.upgrade_after_first_zero");
+                    if some {
+                        rep.fail(P, "R3", format!("upgrade_after_first_zero={:?}", o.hk), format!("upgrade of a {:?} at #{} succeeded although no strong handle had been left at #{g1}", o.hk, o.b), vec![g1, o.b]);
+                    }
+                }
+            }
             if let Some(n) = first_none.get(&o.hk) {
                 rep.premise("C05.R3.monotone");
                 if some && o.b > *n {
